@@ -1,6 +1,7 @@
 package mc
 
 import (
+	"os"
 	"crypto/sha256"
 	"encoding/json"
 	"encoding/hex"
@@ -236,7 +237,24 @@ func (s *MSpec) TraceRun(path []string, out func(format string, a ...interface{}
 		out("path could not be replayed\n")
 	}
 	mark := len(w.Trace)
-	if ok && w.Drain(3000) {
+	if ok && os.Getenv("VERIF_STATES") != "" {
+		// drain by hand, printing the subscriptions of every connection after each action
+		for i := 0; i < 3000; i++ {
+			en := w.Enabled()
+			if len(en) == 0 {
+				break
+			}
+			w.Do(en[0])
+			out("  [%d %s]", len(w.Trace), en[0].Name)
+			for _, cs := range w.ConnSnaps() {
+				for _, sb := range cs.Subs {
+					out(" %s:st%d,d%d,i%d,is%d,q%d", sb.RID, sb.State, sb.Direct, sb.Indirect, sb.IndirectSent, sb.QueueFlag)
+				}
+			}
+			out("\n")
+		}
+		w.End()
+	} else if ok && w.Drain(3000) {
 		w.End()
 	}
 	log := w.MQ.Log()
